@@ -738,6 +738,42 @@ Proof.
     rewrite (last_default_irrelevant words kw _ kw). exact Hl.
 Qed.
 
+(* ---------- the statement with a brace initialiser ---------- *)
+Lemma inner_of_plains_tok l : forallb plain l = true -> inner l.
+Proof.
+  induction l as [|t l IH]; intros H; [constructor|].
+  cbn [forallb] in H. apply andb_prop in H as [Ht Hl]. apply inner_plain; [exact Ht | apply IH; exact Hl].
+Qed.
+
+(* the closing "}" seen as a token of another kind with the same text: no shape can tell the difference *)
+Definition unbrace (t : token) : token := mkTok KOther (t_value t) (t_line t) (t_col t).
+
+Lemma unbrace_plain t : plain (unbrace t) = true.
+Proof. reflexivity. Qed.
+
+Lemma unbrace_sim t : is_rbrace t = true -> tsim t (unbrace t).
+Proof.
+  intros H. unfold tsim.
+  rewrite (symbol_not_name _ _ H), (symbol_not_keyword _ _ H).
+  unfold is_rbrace in H.
+  rewrite (symbol_other t rbrace lparen H), (symbol_other t rbrace rparen H), (symbol_other t rbrace lbrace H),
+          (symbol_other t rbrace s_arrow H) by discriminate.
+  repeat split; try reflexivity. intros s0. rewrite (symbol_not_operator _ _ s0 H). reflexivity.
+Qed.
+
+(* flat } post ;  —  for the shapes an ordinary statement *)
+Lemma init_tail_no_acc_gen c f (Hci : cinv c) (Hfi : finv f)
+  (Hstmt : forall s B, simple_stmt s -> no_acc c f s B) flat cl post semi B :
+  inner flat -> is_rbrace cl = true -> inner post -> is_symbol semi semicolon = true ->
+  no_acc c f (flat ++ cl :: post ++ [semi]) B.
+Proof.
+  intros Hflat Hcl Hpost Hsemi.
+  apply (no_acc_sim c f _ (flat ++ unbrace cl :: post ++ [semi]) B Hci Hfi).
+  - apply lsim_app; [apply lsim_refl|]. constructor; [apply unbrace_sim; exact Hcl | apply lsim_refl].
+  - apply Hstmt. exists (flat ++ unbrace cl :: post), semi. split; [norm_app; reflexivity|]. split; [|exact Hsemi].
+    apply inner_app; [exact Hflat|]. apply inner_plain; [apply unbrace_plain | exact Hpost].
+Qed.
+
 (* ---------- the good selections ---------- *)
 Record good (l : language) (c : cand_fn) (f : follow_fn) : Prop := mkGood
   { g_c : cshift c;
@@ -746,11 +782,14 @@ Record good (l : language) (c : cand_fn) (f : follow_fn) : Prop := mkGood
     g_sym : forall t W, is_name t = false -> is_keyword t = false -> acc c f (t :: W) 0 = None;
     g_wlist : forall V, wlist V -> acc c f V 0 = None;
     g_chain : forall W, chain W -> acc c f W 0 = None;
-    g_prefix : forall t W, prefix_word l t = true -> hd_ok word W -> acc c f (t :: W) 0 = None }.
+    g_prefix : forall t W, prefix_word l t = true -> hd_ok word W -> acc c f (t :: W) 0 = None;
+    g_kwsym : forall t W, is_keyword t = true -> hd_ok notname W -> acc c f (t :: W) 0 = None;
+    g_cinv : cinv c;
+    g_finv : finv f }.
 
-Lemma good_plain_f l f : fshift f -> isuf_rejects f -> good l cand_plain f.
+Lemma good_plain_f l f : fshift f -> isuf_rejects f -> finv f -> good l cand_plain f.
 Proof.
-  intros Hf Hr. constructor.
+  intros Hf Hr Hfi. constructor.
   - apply cshift_plain.
   - exact Hf.
   - intros w. apply isuf_plain; assumption.
@@ -758,11 +797,14 @@ Proof.
   - intros V HV. apply acc_cand_none, wlist_plain, HV.
   - intros W HW. apply acc_cand_none, chain_plain, HW.
   - intros t W _ HW. apply plain_not_lparen. apply word_nlp. exact HW.
+  - intros t W Hk _. apply plain_not_name. apply keyword_not_name. exact Hk.
+  - apply cinv_plain.
+  - exact Hfi.
 Qed.
 
-Lemma good_function_f l f : fshift f -> isuf_rejects f -> good l cand_function f.
+Lemma good_function_f l f : fshift f -> isuf_rejects f -> finv f -> good l cand_function f.
 Proof.
-  intros Hf Hr. constructor.
+  intros Hf Hr Hfi. constructor.
   - apply cshift_function.
   - exact Hf.
   - intros w. apply isuf_function; assumption.
@@ -770,13 +812,16 @@ Proof.
   - intros V HV. apply acc_cand_none, wlist_function, HV.
   - intros W HW. apply acc_cand_none, chain_function, HW.
   - intros t W Hp HW. apply prefix_word_inv in Hp as (H1 & _). apply function_not_lparen; [exact H1 | apply word_nlp; exact HW].
+  - intros t W Hk HW. apply function_kw_notname; [apply keyword_not_name; exact Hk | exact HW].
+  - apply cinv_function.
+  - exact Hfi.
 Qed.
 
 Lemma good_plain l : good l cand_plain follow_brace.
-Proof. apply good_plain_f; [apply fshift_brace | apply isuf_rejects_brace]. Qed.
+Proof. apply good_plain_f; [apply fshift_brace | apply isuf_rejects_brace | apply finv_brace]. Qed.
 
 Lemma good_function l : good l cand_function follow_brace.
-Proof. apply good_function_f; [apply fshift_brace | apply isuf_rejects_brace]. Qed.
+Proof. apply good_function_f; [apply fshift_brace | apply isuf_rejects_brace | apply finv_brace]. Qed.
 
 Lemma good_arrow l : good l cand_arrow follow_brace.
 Proof.
@@ -788,10 +833,13 @@ Proof.
   - intros V HV. apply acc_cand_none, wlist_arrow, HV.
   - intros W HW. apply acc_cand_none, chain_arrow, HW.
   - intros t W Hp HW. apply prefix_word_inv in Hp as (_ & H2 & _). apply arrow_noteq; [exact H2 | apply word_noteq; exact HW].
+  - intros t W Hk HW. apply arrow_kw_notname; [apply keyword_not_name; exact Hk | exact HW].
+  - apply cinv_arrow.
+  - apply finv_brace.
 Qed.
 
 Lemma good_never l : good l cand_never follow_brace.
-Proof. constructor; try reflexivity. apply cshift_never. apply fshift_brace. Qed.
+Proof. constructor; try reflexivity; [apply cshift_never | apply fshift_brace | apply cinv_never | apply finv_brace]. Qed.
 
 (* ---------- pieces of the grammar without accepted candidate ---------- *)
 Section Pieces.
@@ -909,6 +957,24 @@ Section Pieces.
     forallb plain pre = true -> is_lbrace o = true -> forallb plain flat = true -> is_rbrace cl = true ->
     no_acc c f (pre ++ o :: flat ++ [cl]) B.
   Proof. apply (init_front_no_acc_gen c f (g_c _ _ _ G) (g_f _ _ _ G) (g_chain _ _ _ G)). Qed.
+  Lemma init_stmt_no_acc pre o flat cl post semi B :
+    forallb plain pre = true -> is_lbrace o = true -> inner flat -> is_rbrace cl = true ->
+    inner post -> is_symbol semi semicolon = true ->
+    no_acc c f (pre ++ o :: flat ++ cl :: post ++ [semi]) B.
+  Proof.
+    intros Hpre Ho Hflat Hcl Hpost Hsemi.
+    replace (pre ++ o :: flat ++ cl :: post ++ [semi]) with ((pre ++ [o]) ++ flat ++ cl :: post ++ [semi]) by (norm_app; reflexivity).
+    apply (no_acc_app c f (g_c _ _ _ G) (g_f _ _ _ G)).
+    - apply (plains_no_acc_gen c f (g_c _ _ _ G) (g_f _ _ _ G) (g_chain _ _ _ G)); [exact Hpre | left; exact Ho].
+    - apply (init_tail_no_acc_gen c f (g_cinv _ _ _ G) (g_finv _ _ _ G)); try assumption. apply stmt_no_acc.
+  Qed.
+
+  Lemma label_no_acc kw colon B : is_keyword kw = true -> is_operator colon s_colon = true -> no_acc c f [kw; colon] B.
+  Proof.
+    intros Hkw Hco. apply (no_acc_cons c f (g_c _ _ _ G) (g_f _ _ _ G)).
+    - apply (g_kwsym _ _ _ G); [exact Hkw|]. cbn [app hd_ok]. unfold notname. rewrite (operator_not_name _ _ Hco). reflexivity.
+    - eapply operator_no_acc. exact Hco.
+  Qed.
 End Pieces.
 
 (* ---------- the heads accepted ---------- *)
